@@ -981,6 +981,11 @@ func (b *wfBuilder) makeSetsAndInjectors() {
 		}
 		b.s.Injectors = append(b.s.Injectors, in)
 	}
+	// the ProdSet/TestSet pattern: a second set that differs from a named set
+	// in one provider function, and a second injector built from it
+	if !b.o.SingleInj && b.pct(25, "altset") {
+		b.addAltSet()
+	}
 	// named sets' packages: a set may only mention sets it can import
 	b.fixSetPackages()
 	// injector result flags from the model
@@ -1082,6 +1087,46 @@ func sortInts(a []int) {
 			a[j-1], a[j] = a[j], a[j-1]
 		}
 	}
+}
+
+// addAltSet clones a named set that an injector lists directly, replacing
+// one of its provider functions by a twin (same signature, another function),
+// and clones that injector to use the clone.
+func (b *wfBuilder) addAltSet() {
+	type cand struct{ inj, arg, set, pos int }
+	var cs []cand
+	for k, in := range b.s.Injectors {
+		for a, r := range in.Args {
+			if r.Set < 0 || b.s.Sets[r.Set].AliasOf >= 0 {
+				continue
+			}
+			for pos, sr := range b.s.Sets[r.Set].Args {
+				if sr.Item >= 0 && b.s.Items[sr.Item].Kind == "func" {
+					cs = append(cs, cand{k, a, r.Set, pos})
+				}
+			}
+		}
+	}
+	if len(cs) == 0 {
+		return
+	}
+	c := cs[b.intn(0, len(cs)-1, "altcand")]
+	orig := b.s.Items[b.s.Sets[c.set].Args[c.pos].Item]
+	twin := orig
+	twin.Name = orig.Name + "Alt"
+	twin.Params = append([]*Type(nil), orig.Params...)
+	b.s.Items = append(b.s.Items, twin)
+	ti := len(b.s.Items) - 1
+	st := b.s.Sets[c.set]
+	alt := Set{Pkg: st.Pkg, Name: st.Name + "Alt", AliasOf: -1, Args: append([]Ref(nil), st.Args...)}
+	alt.Args[c.pos] = RItem(ti)
+	b.s.Sets = append(b.s.Sets, alt)
+	in := b.s.Injectors[c.inj]
+	in.Name += "Alt"
+	in.Args = append([]Ref(nil), in.Args...)
+	in.Args[c.arg] = RSet(len(b.s.Sets) - 1)
+	in.Params = append([]Param(nil), in.Params...)
+	b.s.Injectors = append(b.s.Injectors, in)
 }
 
 // makePlan fills Spec.Plan: a fault-free run of every injector, one run per
